@@ -92,7 +92,7 @@ def feature_variants(ctx, n):
 
 def e2e_prog(ctx, r, prog, n):
     """Contracts with a chain-custom message type: interfaces written for Empty must behave like native ones."""
-    if not prog["custom"]["msg"] and not prog["custom"]["query"]:
+    if not prog["custom"]["msg"] and not prog["custom"]["query"] and not any(pt.get("extra_flags") for pt in prog["parts"]):
         return
     rng = ctx.rng("c11b", prog["name"])
     canon = Canon(r, prog)
@@ -102,7 +102,7 @@ def e2e_prog(ctx, r, prog, n):
             continue
         part = part_by_id(prog, h["part"])
         pm, pq = part_customs(prog, part)
-        bridged = (prog["custom"]["msg"] and not pm) or (prog["custom"]["query"] and not pq)
+        bridged = (prog["custom"]["msg"] and not pm) or (prog["custom"]["query"] and not pq) or bool(part.get("extra_flags"))
         for it in range(n):
             texts = draw_args(rng, prog, h)
             ct = canon_args(canon, prog, h, texts)
@@ -130,7 +130,8 @@ def e2e_prog(ctx, r, prog, n):
                 ctx.violate("e2e:ctx", f"{pn} {h['hid']}: handler saw a different env/sender", d)
             res = o["res"]
             # canonical form of the planned response under the *contract's* custom type
-            must_fail = with_custom and prog["custom"]["msg"] and not pm
+            # (an interface flagged `custom(msg)` is converted even if the contract's own message type is Empty)
+            must_fail = with_custom and not pm and (prog["custom"]["msg"] or "msg" in part.get("extra_flags", []))
             if must_fail:
                 if "err" not in res:
                     ctx.violate("e2e:custom-accepted", f"{pn} {h['hid']}: response with a Custom(Empty) message reached the caller: {str(res)[:120]}", d)
